@@ -11,6 +11,10 @@ checks, na = [], []
 for p in props:
   pid = p['id']
   path = os.path.join('props', pid.lower() + '.py')
+  ready = set(open('tools/ready.txt').read().split())
+  if os.path.exists(path) and pid not in ready:
+    na.append({'property_id': pid, 'reason': 'check under construction (module exists but is not yet validated on the unchanged tree); nothing is claimed for it yet'})
+    continue
   if not os.path.exists(path):
     na.append({'property_id': pid, 'reason': 'check not built yet (planned in DESIGN.md section 4); nothing is claimed for it'})
     continue
